@@ -293,8 +293,11 @@ func (p *poller) modify(fd int, event Event) error {
 
 func (p *poller) Del(slot *Slot) error {
 	err := p.DelRead(slot)
+	// Remove the write direction even if removing the read direction failed (e.g. the descriptor was closed
+	// underneath), otherwise the write interest and its pending count are never dropped.
+	errWrite := p.DelWrite(slot)
 	if err == nil {
-		return p.DelWrite(slot)
+		return errWrite
 	}
 	return nil
 }
